@@ -194,14 +194,23 @@ def class_header(i, bases, style):
   return "class C%d(%s):" % (i, ", ".join("object" if b == 0 else "C%d" % b for b in bases))
 
 
-def source_program(H, attrs, lookups, style=0):
-  """Returns (text, line_of_class: {i: line}, probes: {var: (i, name, kind)})."""
+def source_program(H, attrs, lookups, style=0, history=None, fail=None):
+  """Returns (text, line_of_class: {i: line}, probes: {var: (i, name, kind)}).
+  `history` (list of ops, see random_history) is emitted after the last class CPython creates, i.e. before the
+  statement of class `fail` if there is one."""
   lines = []
   for i in range(1, len(H)):
     lines.append("class T%d: pass" % i)
+  for op in history or []:
+    if op[0] == "A":
+      lines.append("class U%d: pass" % op[3])
+      if op[2] == "m":
+        lines += ["def g%d(self):" % op[3], "  return U%d()" % op[3]]
   cls_line = {}
   probes = {}
   for i in range(1, len(H)):
+    if i == fail:
+      history_lines(history, lines, probes)
     cls_line[i] = len(lines) + 1
     lines.append(class_header(i, H[i], style))
     body = []
@@ -222,7 +231,111 @@ def source_program(H, attrs, lookups, style=0):
         lines.append("%s = C%d.%s" % (v, i, n)); probes[v] = (i, n, "class")
         v = "s_%d_%s" % (i, n)
         lines.append("%s = C%d().%s" % (v, i, n)); probes[v] = (i, n, "instance")
+  if fail is None:
+    history_lines(history, lines, probes)
   return "\n".join(lines) + "\n", cls_line, probes
+
+
+# ----------------------------------------------------------------------------------------------
+# histories: reads interleaved with class-attribute assignments and deletions after class creation
+#   ["R", kind, c, n]   h<k> = C<c>.<n> | C<c>().<n> | C<c>().m()      (kind: class / instance / call)
+#   ["A", x, n, k]      C<x>.<n> = U<k>()      or  C<x>.m = g<k>  (g<k> returns U<k>())
+#   ["D", x, n]         del C<x>.<n>
+
+def history_lines(history, lines, probes):
+  k = 0
+  for op in history or []:
+    if op[0] == "R":
+      _, kind, c, n = op
+      v = "h_%d" % k; k += 1
+      probes[v] = (c, n, kind)
+      if kind == "class":
+        lines.append("%s = C%d.%s" % (v, c, n))
+      elif kind == "instance":
+        lines.append("%s = C%d().%s" % (v, c, n))
+      else:
+        lines.append("%s = C%d().m()" % (v, c))
+    elif op[0] == "A":
+      _, x, n, u = op
+      lines.append("C%d.%s = %s" % (x, n, ("g%d" % u) if n == "m" else ("U%d()" % u)))
+    else:
+      lines.append("del C%d.%s" % (op[1], op[2]))
+
+
+def simulate_history(mros, attrs, history, ignore_deletes=False):
+  """Replays the ops on the table of own definitions.  Returns None if the history is not executable in CPython
+  (deleting an attribute the class does not own, reading a name nobody defines), else a list with, per read, the
+  tuple (op index, defs snapshot {class: {name: marker}}, defining class, marker)."""
+  defs = {i: {n: "T%d" % i for n in attrs[i]} for i in range(1, len(mros))}
+  true_defs = {i: dict(d) for i, d in defs.items()}
+  reads = []
+  for idx, op in enumerate(history):
+    if op[0] == "R":
+      _, kind, c, n = op
+      if c >= len(mros) or next((k for k in mros[c] if k and n in true_defs[k]), None) is None:
+        return None
+      d = next((k for k in mros[c] if k and n in defs[k]), None)
+      reads.append((idx, {i: dict(v) for i, v in defs.items()}, d, defs[d][n] if d else None))
+    elif op[0] == "A":
+      _, x, n, u = op
+      if x >= len(mros):
+        return None
+      defs[x][n] = true_defs[x][n] = "U%d" % u
+    else:
+      _, x, n = op
+      if x >= len(mros) or n not in true_defs[x]:
+        return None
+      del true_defs[x][n]
+      if not ignore_deletes:
+        del defs[x][n]
+  return reads
+
+
+def random_history(r, mros, attrs, n_ops=None):
+  """Mostly: read n through C; change who defines n at an EARLIER / the reader's own / a LATER position of C's MRO
+  (assignment with a fresh marker, or deletion of an owned definition); read again through class, instance, call."""
+  n_cls = len(mros)
+  if n_cls < 2:
+    return []
+  hist = []
+  defs = {i: set(attrs[i]) for i in range(1, n_cls)}
+  marker = [0]
+  def found(c, n):
+    return next((p for p, k in enumerate(mros[c]) if k and n in defs[k]), None)
+  def read(c, n):
+    if found(c, n) is None:
+      return
+    kinds = ["call"] if n == "m" else ["class", "instance"]
+    for kind in r.sample(kinds, r.randint(1, len(kinds))):
+      hist.append(["R", kind, c, n])
+  readers = [c for c in range(1, n_cls)]
+  weights = [len(mros[c]) ** 2 for c in readers]
+  for _ in range(n_ops if n_ops is not None else r.randint(2, 5)):
+    c = r.choices(readers, weights=weights)[0]
+    n = r.choice(ATTR_NAMES)
+    if r.random() < 0.8:
+      read(c, n)
+    pos = found(c, n)
+    chain = [k for k in mros[c] if k]
+    k = r.random()
+    if pos is not None and pos > 0 and k < 0.5:
+      x = chain[r.randrange(pos)]                       # earlier than the current definition (maybe C itself)
+    elif k < 0.65:
+      x = c
+    elif pos is not None and pos + 1 < len(chain) and k < 0.8:
+      x = chain[r.randrange(pos + 1, len(chain))]      # later: must not be visible
+    else:
+      x = r.choice(chain)
+    if n in defs[x] and r.random() < 0.3:
+      hist.append(["D", x, n]); defs[x].discard(n)
+    else:
+      marker[0] += 1
+      hist.append(["A", x, n, marker[0]]); defs[x].add(n)
+    read(c, n)
+    if r.random() < 0.4:
+      c2 = r.choice(readers)
+      read(c2, n)
+  return hist
 
 
 def stub_program(H, attrs, lookups):
@@ -269,6 +382,6 @@ def run_in_cpython(text):
     err = str(e)
   out = {}
   for k, v in ns.items():
-    if k[:2] in ("r_", "s_", "q_"):
+    if k[:2] in ("r_", "s_", "q_", "h_"):
       out[k] = type(v).__name__
   return out, err
